@@ -27,6 +27,7 @@ type SchedSpec struct {
 	HotOnly  int     `json:"hot_only,omitempty"` // >0: pre-empt only at hot sites, each visit with this probability (percent)
 	Stall    int     `json:"stall"`              // task id starved after its first pre-emption, -1 none
 	StallFor int     `json:"stall_for"`          // number of scheduling decisions
+	StallSet []int   `json:"stall_set,omitempty"` // further tasks starved the same way (many-task runs)
 	LowPrio  int     `json:"low_prio"`           // task id only run when nothing else can, -1 none
 	MeanGap  int64   `json:"mean_gap,omitempty"`
 	Points   []int64 `json:"points,omitempty"` // the exact global yield indices drawn (informational; replay uses the schedule)
@@ -119,16 +120,17 @@ type Tier struct {
 	ChunkSize  int
 	NShared    int
 	NRecycle   int
+	NSharedIE  int // shared-read runs on synthesised values of every IE type (see SharedIEBase)
 }
 
 var Tiers = map[string]Tier{
-	"quick":    {Name: "quick", HotRounds: 6, Many: map[string]int{"sec": 2, "roundtrip": 1, "hist": 1}, PairRounds: 1, Extra: map[string]int{"sec": 12, "roundtrip": 8, "hist": 4, "fn": 4, "chain": 2}, Rounds: 1, Reps: 6, MaxTasks: 8, Faults: true, ChunkSize: 1, NShared: 24, NRecycle: 24},
+	"quick":    {Name: "quick", HotRounds: 6, Many: map[string]int{"sec": 4, "roundtrip": 1, "hist": 1}, PairRounds: 1, Extra: map[string]int{"sec": 12, "roundtrip": 8, "hist": 4, "fn": 4, "chain": 2}, Rounds: 1, Reps: 6, MaxTasks: 8, Faults: true, ChunkSize: 1, NShared: 24, NRecycle: 24},
 	"thorough": {Name: "thorough", HotRounds: 24, Many: map[string]int{"sec": 12, "roundtrip": 4, "hist": 2, "fn": 1, "accessors": 1}, PairRounds: 6, Extra: map[string]int{"sec": 120, "roundtrip": 40, "hist": 20, "fn": 8, "accessors": 4, "chain": 8}, Rounds: 4, Reps: 8, MaxTasks: 64, Faults: true, ChunkSize: 1, NShared: 96, NRecycle: 96},
 }
 
 // NumFocused is the number of focused runs of a tier (they come first).
 func NumFocused(t Tier) int {
-	return len(focusList(t)) + t.NShared + t.NRecycle
+	return len(focusList(t)) + t.NShared + t.NRecycle + t.NSharedIE
 }
 
 // FixTiers sizes the shared / recycle focused phases from the corpus: every
@@ -141,6 +143,7 @@ func FixTiers() {
 		}
 		t.NShared = n * 3 * t.Rounds // the shared message is a different seeded variant of the sample in every round
 		t.NRecycle = n * 2 * t.Rounds
+		t.NSharedIE = len(SharedIETypes()) * t.Rounds
 		Tiers[name] = t
 	}
 }
@@ -177,14 +180,38 @@ func FocusGroups(t Tier) [][2]int {
 		i = j
 	}
 	base := len(fl)
-	for i := 0; i < t.NShared+t.NRecycle; i += 8 {
+	for i := 0; i < t.NShared+t.NRecycle+t.NSharedIE; i += 8 {
 		j := i + 8
-		if j > t.NShared+t.NRecycle {
-			j = t.NShared + t.NRecycle
+		if j > t.NShared+t.NRecycle+t.NSharedIE {
+			j = t.NShared + t.NRecycle + t.NSharedIE
 		}
 		out = append(out, [2]int{base + i, base + j})
 	}
 	return out
+}
+
+// SharedIEBase + k as Plan.Pick: the shared value of a shared-mode run is not a
+// decoded corpus sample but synthesised values of the k-th IE type.
+const SharedIEBase = 1 << 20
+
+var sharedIETypes []string
+
+// SharedIETypes: the information-element types (package nasType) that have accessors -
+// what a decoded message consists of. Other types with accessors (security.Count, the
+// UE policy structures) are not part of "a shared decoded message": C19 does not
+// promise that two goroutines may call their getters on one value (security.Count.Get
+// does write its receiver: it re-applies the 24-bit mask), so they are not read
+// concurrently here.
+func SharedIETypes() []string {
+	if sharedIETypes == nil {
+		sharedIETypes = []string{}
+		for _, n := range Cat.ByFam["accessors"] {
+			if t := Cat.Types[n]; t != nil && isNasTypeIE(t.T) {
+				sharedIETypes = append(sharedIETypes, n)
+			}
+		}
+	}
+	return sharedIETypes
 }
 
 // pair runs: two different entries of the "sec" family in one focused run (a call of
@@ -306,6 +333,7 @@ func PlanRun(seed, index uint64, tierName string) *Plan {
 	r := NewRng(rs)
 	p := &Plan{Property: "C19", Seed: seed, Index: index, RunSeed: rs, Tier: tierName, Pick: -1}
 	p.Sched.Stall, p.Sched.LowPrio = -1, -1
+	pile, pileCost := false, 0
 	fl := focusList(t)
 	nPriv := len(fl)
 	switch {
@@ -319,11 +347,36 @@ func PlanRun(seed, index uint64, tierName string) *Plan {
 		many := fl[index] >= manyBase
 		if many {
 			ntask = 9 + r.Intn(24)
-			if r.Bool() {
+			if r.Chance(35) {
+				ntask = 33 + r.Intn(32) // the property speaks of up to 64 goroutines
+			}
+			if r.Chance(30) {
+				// pile-up: every caller is frozen where it is first pre-empted, with gaps of a
+				// fraction of one call - so that 40-64 callers are INSIDE the library at the same
+				// moment (the most any slot pool, ring or sharded table has to serve at once) -
+				// and only then do they all proceed
+				pile = true
+				ntask = 40 + r.Intn(25)
+				p.Sched.Stall = 0
+				p.Sched.StallFor = 1 << 20
+				for i := 1; i < ntask; i++ {
+					p.Sched.StallSet = append(p.Sched.StallSet, i)
+				}
+			} else if r.Bool() {
 				// one slow caller frozen in the middle of an operation while all the others
 				// complete theirs
 				p.Sched.Stall = r.Intn(ntask)
 				p.Sched.StallFor = 1 << 20
+				if r.Bool() {
+					// ... or a quarter to a half of the callers, each frozen wherever it was
+					// first pre-empted: whatever they hold or have looked up goes stale together
+					k := ntask/4 + r.Intn(ntask/4+1)
+					for i := 0; i < k; i++ {
+						if t := r.Intn(ntask); t != p.Sched.Stall {
+							p.Sched.StallSet = append(p.Sched.StallSet, t)
+						}
+					}
+				}
 			}
 		}
 		// cheap operations are repeated more often: about 1500 yields per task, at
@@ -331,6 +384,12 @@ func PlanRun(seed, index uint64, tierName string) *Plan {
 		reps := t.Reps
 		if many {
 			reps = 2
+			if pile {
+				pileCost = 40
+				if i := fl[index] - manyBase; i < len(Cat.Cost) && Cat.Cost[i] > 0 {
+					pileCost = Cat.Cost[i]
+				}
+			}
 			if r.Bool() {
 				sd.pShare = 0 // all arguments distinct: many values meet in small tables
 				if fl[index]-manyBase < len(Cat.Cost) {
@@ -389,6 +448,25 @@ func PlanRun(seed, index uint64, tierName string) *Plan {
 		p.Kind, p.Mode = "focused", "recycle"
 		p.Pick = int(index) - nPriv - t.NShared
 		planRecycle(p, r, 2*(1+r.Intn(2)))
+	case int(index) < nPriv+t.NShared+t.NRecycle+t.NSharedIE:
+		// the "decoded message" that several tasks only read is, here, a handful of
+		// synthesised values of ONE information-element type (every type in turn, also
+		// those that no corpus sample contains), with the well-formed and the
+		// legal-but-unusual contents the value generator knows for it
+		p.Kind, p.Mode = "focused", "shared"
+		p.Pick = SharedIEBase + (int(index)-nPriv-t.NShared-t.NRecycle)%len(SharedIETypes())
+		ntask := 3 + r.Intn(3)
+		for task := 0; task < ntask; task++ {
+			var ops []OpSpec
+			for i := 0; i < 3; i++ {
+				f := "shget"
+				if r.Chance(25) {
+					f = "shconv"
+				}
+				ops = append(ops, OpSpec{Fam: f, Name: "*", Seed: r.U64()})
+			}
+			p.Tasks = append(p.Tasks, ops)
+		}
 	default:
 		p.Kind = "swarm"
 		n := 2 + r.Intn(3)
@@ -436,7 +514,19 @@ func PlanRun(seed, index uint64, tierName string) *Plan {
 	if len(p.Tasks) > 2 && r.Chance(10) {
 		p.Sched.LowPrio = r.Intn(len(p.Tasks))
 	}
+	if pile {
+		p.Sched.K, p.Sched.Exact, p.Sched.HotBias, p.Sched.HotOnly, p.Sched.LowPrio = 50, false, false, 0, -1
+		p.Sched.MeanGap = int64(pileCost/3 + 2)
+	}
 	return p
+}
+
+func stallSet(l []int) []int32 {
+	var out []int32
+	for _, t := range l {
+		out = append(out, int32(t))
+	}
+	return out
 }
 
 func planPrivate(p *Plan, r *Rng, n int) {
@@ -606,7 +696,8 @@ func safeDump(vals []interface{}) (s string) {
 }
 
 // baseline runs all operations sequentially (simulation inactive), in task
-// order or in reverse, dumping each outcome right after the operation.
+// order or in reverse, dumping each outcome right after the operation (at the end
+// of the run in buffer-recycle mode, see below).
 func baseline(p *Plan, slow map[[2]int]bool, reverse bool) [][]outcome {
 	env := NewEnv(p.Mode, p.RunSeed, len(p.Tasks), p.Pick)
 	insts := buildAll(p, env, slow)
@@ -623,10 +714,26 @@ func baseline(p *Plan, slow map[[2]int]bool, reverse bool) [][]outcome {
 			order[i] = len(p.Tasks) - 1 - i
 		}
 	}
+	// In buffer-recycle mode the operations of one task work on ONE decoded message
+	// (decode it, then keep reading it): a later operation may legitimately leave its
+	// mark on what an earlier one returned. The simulation dumps outcomes when the run
+	// is over, so the sequential run does the same there; in the other modes every
+	// operation owns its values and an outcome that changes after the call returned is
+	// exactly what the early dump is there to expose.
+	late := p.Mode == "recycle"
 	for _, t := range order {
 		for o := range insts[t] {
 			runInst(insts[t][o])
-			out[t][o] = insts[t][o].outcome()
+			if !late {
+				out[t][o] = insts[t][o].outcome()
+			}
+		}
+	}
+	if late {
+		for _, t := range order {
+			for o := range insts[t] {
+				out[t][o] = insts[t][o].outcome()
+			}
 		}
 	}
 	return out
@@ -867,7 +974,7 @@ func ColdOrderRun(p *Plan) *Record {
 // pre-emption by geometric gaps and fault positions from fixed ranges.
 func (x *execution) simulate(totals []int64, total int64) bool {
 	p, rec := x.p, x.rec
-	cfg := &vsimrt.Config{Seed: p.RunSeed, StallTask: int32(p.Sched.Stall), StallFor: p.Sched.StallFor, LowPrio: int32(p.Sched.LowPrio),
+	cfg := &vsimrt.Config{Seed: p.RunSeed, StallTask: int32(p.Sched.Stall), StallFor: p.Sched.StallFor, StallSet: stallSet(p.Sched.StallSet), LowPrio: int32(p.Sched.LowPrio),
 		SiteFlags: siteFlags, NumSites: len(SiteTab)}
 	cfg.Free = p.Free || FreeMode
 	r := NewRng(Mix(p.RunSeed, 0x5c4ed))
